@@ -8,6 +8,7 @@ require (
 	github.com/gorilla/websocket v1.5.3
 	github.com/inbucket/inbucket/v3 v3.0.0
 	github.com/rs/zerolog v1.33.0
+	github.com/yuin/gopher-lua v1.1.1
 	golang.org/x/net v0.29.0
 )
 
@@ -32,7 +33,6 @@ require (
 	github.com/rivo/uniseg v0.4.7 // indirect
 	github.com/ssor/bom v0.0.0-20170718123548-6386211fdfcf // indirect
 	github.com/yuin/gluamapper v0.0.0-20150323120927-d836955830e7 // indirect
-	github.com/yuin/gopher-lua v1.1.1 // indirect
 	golang.org/x/sys v0.25.0 // indirect
 	golang.org/x/text v0.18.0 // indirect
 )
